@@ -195,6 +195,8 @@ BODIES = {
     'fileobj': 'Y:b' + H(b'unknown length'),
     'efileobj': 'Y:',
     'estatic': 'X:',
+    'static1': 'X:b' + H(b'Z'),                                       # static files of several sizes
+    'static785': 'X:b' + H((b'0123456789abcdefghijklmnopqrstuvwxyz\n' * 22)[:785]),
     'json': 'J:b' + H(b'aa') + ',b' + H(b'b'),
     'big': 'B:b' + H(b'x' * 700),
     'kclose': 'K:b' + H(b'it') + ',b' + H(b'erator'),      # iterator object whose close() raises
@@ -227,7 +229,23 @@ METHODS = ['GET', 'HEAD', 'POST']
 AES = ['-', 'gzip', 'identity', 'gzipq0', 'other', 'idq0']
 CONDS = ['-', 'star', 'match', 'other']
 ACS = ['-', 'utf8', 'latin1', 'ascii', 'star', 'ascii2', 'l1u8']
-RANGES = ['-', 'bytes=2-5', 'bytes=2-5,7-9', 'bytes=50-', 'bytes=0-', 'bytes=-3', 'bytes=3-2', 'bytes=0-0,19-']
+RANGES = ['-', 'bytes=2-5', 'bytes=2-5,7-9', 'bytes=50-', 'bytes=0-', 'bytes=-3', 'bytes=3-2', 'bytes=0-0,19-',
+          # a last-byte-pos at or beyond the end of the entity, suffixes longer than it, one satisfiable range of two
+          'bytes=5-99999', 'bytes=0-1048575', 'bytes=700-99999', 'bytes=775-785', 'bytes=19-20', 'bytes=0-20',
+          'bytes=53-54', 'bytes=-500', 'bytes=-0', 'bytes=20-', 'bytes=10-99999,300000-400000', 'bytes=0-10,5-99999',
+          'bytes=0-0', 'bytes=0-1', 'bytes=1-']
+STATICS = ('static', 'estatic', 'static1', 'static785')
+
+
+def boundary_ranges(n):
+    """Range header texts around the boundaries of an entity of n bytes: single / multiple, open-ended, suffix, a
+    last-byte-pos at and beyond the end, a first-byte-pos at the end, overlapping, one satisfiable range of two"""
+    m = max(n - 1, 0)
+    specs = ['%d-%d' % (m, m), '%d-%d' % (m, n), '%d-%d' % (m, n + 5), '0-%d' % m, '0-%d' % n, '0-%d' % (10 * n + 7),
+             '%d-' % n, '%d-%d' % (n, n + 3), '%d-' % m, '%d-99999' % (n // 2), '-%d' % max(n, 1), '-%d' % (n + 1),
+             '-%d' % (10 * n + 3), '-1', '%d-%d,%d-%d' % (n // 2, n + 9, n, n + 4), '0-%d,1-2' % (n + 3),
+             '%d-,0-0' % m, '0-%d,%d-%d' % (n // 2, n // 3, n + 50), '%d-%d,%d-' % (n + 1, n + 2, n + 3)]
+    return ['bytes=' + x for x in specs]
 PAGES = ['tmpl', 'short', 'empty', 'long', 'str', 'iter', 'raise', 'int', 'file']
 CTS = ['html', 'plain', 'json', 'octet', 'xml']
 EXT_KEYS = ('rh', 'acc', 'jin', 'noslash', 'sess', 'av', 'sf', 'er', 'xp', 'tb', 'encu', 'te', 'emsg', 'fo', 'gzl')
@@ -265,7 +283,7 @@ def normalise(case):
     streaming = 'stream' in tools or c.get('hstream')
     kind = c['body'][0]
     multi = '|' in c['body']
-    own_ok = (b in ALLBYTES or b in ('static', 'estatic') or
+    own_ok = (b in ALLBYTES or b in STATICS or
               (b in ('text', 'latin', 'tlist') and 'encode' in tools and not streaming
                and c.get('ct') in ('html', 'plain', 'xml'))) and not multi
     if c.get('hcl') == 'u':
@@ -301,7 +319,7 @@ def normalise(case):
         r['t'] = t
     if b in ('fileobj', 'efileobj') and c['st'][0] not in '-si':
         c['st'] = '-'      # (the model's serve_fileobj handler sets a status or none; it does not raise)
-    if b in ('static', 'estatic', 'gstatic'):
+    if b in STATICS or b == 'gstatic':
         c['hcl'] = 1 if (c.get('hcl') and b != 'gstatic') else 0
         if c['st'][0] not in '-s':
             c['st'] = '-'
@@ -363,7 +381,7 @@ def model_ext(case):
         if ext.get(k):
             out.append(k)
     if ext.get('sf'):
-        out.append('sf' + R.SF_DATA.hex())
+        out.append('sf' + R.sf_data(case).hex())
     er = str(ext.get('er', '-'))
     if er[0] == 'c':
         out.append('erc%s:%s' % (er[1:], R.ER_BODY.hex()))
@@ -379,7 +397,7 @@ def model_ext(case):
         out.append('erx' + _cps(R.xmlrpc_texts(text if case['st'] == 'x' else 'some ascii message')[1]))
     size = None
     if ext.get('sf'):
-        size = len(R.SF_DATA)
+        size = len(R.sf_data(case))
     elif case['body'].startswith('X:'):
         size = R.byte_len(R.parse_body(case['body'].split('|')[0])[1])
     if size is not None:
@@ -851,6 +869,19 @@ def systematic_quick():
             for m in ('GET', 'HEAD'):
                 for hcl in (0, 1):
                     out.append(mk('static', '-', tools, [req(m, ae='gzip', rng=rg)], hcl=hcl))
+    # Range header texts around the boundaries of entities of several sizes, through serve_file / serve_fileobj (handler)
+    # and tools.staticfile: 206 / 416 / 200 must all have Content-Length = delivered bytes
+    for b, n in (('static1', 1), ('static', 20), ('static785', 785), ('estatic', 0)):
+        for rg in boundary_ranges(n) + RANGES[8:]:
+            for tools in ([], ['stream'], ['gzip', 'etags'], ['caching']):
+                for m in ('GET', 'HEAD'):
+                    rq = req(m, ae='gzip', rng=rg)
+                    out.append(mk(b, '-', tools, [rq, dict(rq)] if 'caching' in tools else [rq],
+                                  ext={'fo': int(m == 'HEAD')}))
+    for n in (7, 54, 785):
+        for rg in boundary_ranges(n) + RANGES[8:]:
+            for tools in ([], ['stream'], ['encode', 'gzip']):
+                out.append(mk('gen', '-', tools, [req('GET', ae='gzip', rng=rg)], ct='plain', ext={'sf': n}))
     # a user hook raising / rewriting / re-statusing at every position of the before_finalize chain
     for prio in HOOK_PRIOS:
         for act in HOOK_ACTS:
@@ -1011,6 +1042,8 @@ def random_ext(rng, tools):
                      ('sf', 0.12), ('tb', 0.1), ('encu', 0.1), ('te', 0.1), ('emsg', 0.1), ('fo', 0.15)):
             if rng.random() < p:
                 ext[k] = 1
+        if ext.get('sf') and rng.random() < 0.5:
+            ext['sf'] = rng.choice([1, 7, 785, 20])
         if rng.random() < 0.15:
             ext['er'] = rng.choice(ERS[1:])
         if 'expires' in tools and rng.random() < 0.5:
@@ -1025,6 +1058,9 @@ def random_case(rng):
     b = rng.choice(list(BODIES))
     if 'caching' in tools and rng.random() < 0.5:
         b = rng.choice(GROWING)
+    rpool = RANGES
+    if rng.random() < 0.5:
+        rpool = boundary_ranges(rng.choice([0, 1, 20, 54, 785]))
     st = rng.choice(STATUSES) if rng.random() < 0.6 else '-'
     if rng.random() < 0.08:
         tools.append('errfails')
@@ -1044,7 +1080,7 @@ def random_case(rng):
                         inm=rng.choice(CONDS) if rng.random() < 0.35 else '-',
                         im=rng.choice(CONDS) if rng.random() < 0.2 else '-',
                         ac=rng.choice(ACS) if rng.random() < 0.4 else '-',
-                        rng=rng.choice(RANGES) if rng.random() < 0.5 else '-',
+                        rng=rng.choice(rpool) if rng.random() < 0.5 else '-',
                         cc=rng.choice(CCS) if ('caching' in tools and rng.random() < 0.45) else '-',
                         dt=rng.choice(DTS) if 'caching' in tools else 0,
                         proto=proto0 if rng.random() < 0.9 else rng.choice(['10', '11']),
@@ -1117,6 +1153,15 @@ def pre_lattice():
                     yield normalise(mk(b, st, tools, [r1, dict(r1)] if 'caching' in tools else [r1], hstream=hs))
 
 
+def range_lattice():
+    """Range header texts around the boundaries of static entities of three sizes x every tool subset"""
+    for b, n in (('static1', 1), ('static', 20), ('static785', 785)):
+        for rg in boundary_ranges(n):
+            for tools in ALL_SUBSETS:
+                rq = req('GET', ae='gzip', rng=rg)
+                yield normalise(mk(b, '-', tools, [rq, req('HEAD', ae='gzip', rng=rg)] if 'caching' in tools else [rq]))
+
+
 def corpus_cases():
     d = os.path.join(common.CORPUS, PROPERTY)
     out = []
@@ -1156,6 +1201,9 @@ def run(ctx):
         pre = list(pre_lattice())
         process(ctx, pre, procs=procs)
         ctx.extra['exhaustive_pre_handler_lattice'] = len(pre)
+        rl = list(range_lattice())
+        process(ctx, rl, procs=procs)
+        ctx.extra['exhaustive_range_lattice'] = len(rl)
     ctx.extra['systematic_block'] = len(sysq)
     report_coverage(ctx)
 
